@@ -222,6 +222,18 @@ func (z *zipkinNDDecoderV2) Decode() error {
 	scanner := bufio.NewScanner(z.ctx.bodyReader)
 	scanner.Split(bufio.ScanLines)
 	for scanner.Scan() {
+		// per-span state has to be cleared before every line, and the line kept as the stored payload,
+		// exactly as the JSON-array decoder does for every element
+		z.traceId = nil
+		z.spanId = nil
+		z.timestampNs = 0
+		z.durationNs = 0
+		z.parentId = ""
+		z.name = ""
+		z.serviceName = ""
+		z.key = z.key[:0]
+		z.val = z.val[:0]
+		z.payload = append([]byte{}, scanner.Bytes()...)
 		err := z.decodeSpan(scanner.Bytes())
 		if err != nil {
 			return custom_errors.NewUnmarshalError(err)
